@@ -2,7 +2,7 @@ from ..streams import stress
 from ..oracles import c15
 
 STREAMS = [stress.stream_vonmises, stress.stream_failure]
-ORACLES = [c15.oracle_ks, c15.oracle_vonmises, c15.oracle_wingbox_closed_form]
+ORACLES = [c15.oracle_ks, c15.oracle_vonmises, c15.oracle_wingbox_closed_form, c15.oracle_two_surface_aerostruct]
 UNPROVED = ["wingbox closed forms in terms of htop/Qz/J/A_enc are definitional in the model (wb_top = E/L^2 * Mz * htop ...) and not restated as separate theorems",
             "the Jacobians of VonMisesTube / VonMisesWingbox are theorems of C01 (C01_VonMisesTube, C01_VonMisesWingbox), not restated here"]
 ASSUMPTIONS = [
